@@ -27,7 +27,22 @@ class Case:
         self.must_reach = must_reach or []
 
 
+_case_cache = {}
+_index_cache = {}
+
+
+def _by_id(modname, tier, cs):
+    key = (modname, tier)
+    if key not in _index_cache:
+        _index_cache[key] = {c.id: c for c in cs}
+    return _index_cache[key]
+
+
 def load_cases(modname, tier):
+    """the case list of a harness module (cached: forked workers inherit the parent's list)"""
+    key = (modname, tier)
+    if key in _case_cache:
+        return _case_cache[key]
     mod = importlib.import_module("harness." + modname)
     cs = mod.cases(tier)
     ids = set()
@@ -35,6 +50,7 @@ def load_cases(modname, tier):
         if c.id in ids:
             raise RuntimeError("duplicate case id " + c.id)
         ids.add(c.id)
+    _case_cache[key] = (mod, cs)
     return mod, cs
 
 
@@ -61,7 +77,7 @@ def _run_case(args):
         from .core import Ctx, EngineLimit, PathTimeout
         stubs.install()
         mod, cs = load_cases(modname, tier)
-        case = next(c for c in cs if c.id == cid)
+        case = _by_id(modname, tier, cs)[cid]
         known = [k for k in load_known(mod.PROPERTY) if k.get("family") in (None, case.family)]
         core.reset_atoms()
         ctx = Ctx(known=known, params=dict(case.params))
@@ -152,7 +168,7 @@ def run_property(modname, tier, seed, jobs=None, only=None, verbose=False):
     args = [(modname, c.id, tier, path_timeout) for c in sorted(cs, key=lambda c: -c.budget)]
     results = []
     ctxm = multiprocessing.get_context("fork")
-    with ctxm.Pool(min(jobs, max(1, len(args))), maxtasksperchild=4) as pool:
+    with ctxm.Pool(min(jobs, max(1, len(args))), maxtasksperchild=24) as pool:
         for r in pool.imap_unordered(_run_case, args, chunksize=1):
             results.append(r)
             if verbose:
